@@ -35,6 +35,14 @@ EventsX == { Mk(i, r, s, p) : i \in {"t1", "t2"}, r \in {None, "r"},
                               s \in {None, "inprogress", "success", "fail", "exists", "skip", "xfail", "uxsuccess"},
                               p \in {P1, P2, P3, P5} }
 
+\* events WITHOUT a test id for the DropExists (StreamToExtendedDecorator) instance: "events without a test id are
+\* ignored" whatever else they carry (file name with / without bytes, mime type, tags, timestamp, route code) -
+\* nothing may be reported for them, also not when stopTestRun flushes; a few events with an id to interleave
+EventsXN == { Mk(None, r, s, p) : r \in {None, "r"}, s \in {None, "inprogress", "success", "fail", "exists"},
+                                  p \in {P1, P2, P3, P4, P5, P6} }
+             \cup { Mk("t1", None, s, p) : s \in {"inprogress", "success", "fail"}, p \in {P1, P3} }
+EventsXS == EventsX \cup EventsXN
+
 \* all nine statuses, for the thorough tier / simulation
 EventsC == { Mk(i, r, s, p) : i \in {"t1", "t2", None}, r \in {None, "r"},
                               s \in {None, "inprogress", "success", "fail", "exists", "skip",
